@@ -650,6 +650,48 @@ def decJwk (P : Prims) (jwe : Json) (rcp : Option Json) (jwk : Json) (rnd : Bs) 
 def dec (P : Prims) (jwe : Json) (rcp : Option Json) (jwk : Json) (rnd : Bs) : Option Bs :=
   (decJwk P jwe rcp jwk rnd).bind fun cek => decCek P jwe cek
 
+/-- bytes of the RAND_bytes stream a wrap of family `name` draws before anything else does: the CEK
+    (when it has no "k" yet and is not taken from the key) and the family's own IV / salt -/
+def wrapRandUse (name : String) (cekHadK : Bool) (enc : Option String) : Nat :=
+  let cekBytes := if cekHadK || name == "dir" then 0 else ((enc.bind encKeyLen).getD 0)
+  cekBytes + (match wrapFamily name with
+    | some (.gcmkw _) => 12
+    | some (.pbes2 _ _ k) => k
+    | _ => 0)
+
+/-- the key-management algorithm `encJwkOne` settles on -/
+def encJwkName (jwe : Json) (rcp : Option Json) (jwk : Json) : Option String :=
+  let r : Json := match rcp with | some x => x | none => .obj []
+  (jweHdr jwe (some r)).bind fun hdr => (findAlgWrap hdr r jwk).map fun (a, _) => a.name
+
+/-- the multi-key loop of `jose_jwe_enc_jwk`: key `i` gets element `i` of an array template, or
+    (a fresh copy of) the shared template itself — never what an earlier key made of it -/
+def encJwkKeys (P : Prims) (rcp : Option Json) : List Json → Nat → Json → Json → Bs → Option (Json × Json × Bs)
+  | [], _, jwe, cek, rnd => some (jwe, cek, rnd)
+  | k :: ks, i, jwe, cek, rnd =>
+    let tmpl : Option Json := match rcp with | some (.arr l) => l[i]? | other => other
+    match keyList k with
+    | some _ => none             -- nested key lists: not modelled
+    | none =>
+      (encJwkOne P jwe tmpl k cek rnd).bind fun (jwe1, cek1) =>
+        let used := wrapRandUse ((encJwkName jwe tmpl k).getD "") (cek.get? "k").isSome (cek1.getStr? "alg")
+        encJwkKeys P rcp ks (i + 1) jwe1 cek1 (rnd.drop used)
+
+/-- `jose_jwe_enc_jwk(cfg, jwe, rcp, jwk, cek)`: the JWE and CEK afterwards and the unread rest of
+    the random stream; `none` = false -/
+def encJwk (P : Prims) (jwe : Json) (rcp : Option Json) (jwk cek : Json) (rnd : Bs) : Option (Json × Json × Bs) :=
+  match keyList jwk with
+  | some keys =>
+    let sizeOk := match rcp with | some (.arr l) => l.length == keys.length | _ => true
+    if !sizeOk || keys.isEmpty then none else encJwkKeys P rcp keys 0 jwe cek rnd
+  | none =>
+    (encJwkOne P jwe rcp jwk cek rnd).map fun (jwe1, cek1) =>
+      (jwe1, cek1, rnd.drop (wrapRandUse ((encJwkName jwe rcp jwk).getD "") (cek.get? "k").isSome (cek1.getStr? "alg")))
+
+/-- `jose_jwe_enc(cfg, jwe, rcp, jwk, pt, ptl)` over one random stream -/
+def encAll (P : Prims) (jwe : Json) (rcp : Option Json) (jwk : Json) (pt rnd : Bs) : Option Json :=
+  (encJwk P jwe rcp jwk (.obj []) rnd).bind fun (jwe1, cek, rest) => encCek P jwe1 cek pt rest
+
 /-- `jose_jwe_enc(cfg, jwe, rcp, jwk, pt, ptl)`, one key -/
 def enc (P : Prims) (jwe : Json) (rcp : Option Json) (jwk : Json) (pt rndK rndC : Bs) : Option Json :=
   (encJwkOne P jwe rcp jwk (.obj []) rndK).bind fun (jwe1, cek) => encCek P jwe1 cek pt rndC
